@@ -5,7 +5,7 @@ CONSTANTS
   MaxWrite = 3
   Bufs = {0, 1, 2, 3, 4}
   Shorts = {0, 1, 2}
-  Glitches = {"dataerr", "temperr", "shortwrite", "eofdata"}
+  Glitches = {"dataerr", "temperr", "shortwrite", "eofdata", "refusewrite"}
 INIT Init
 NEXT Next
 VIEW View
